@@ -172,7 +172,7 @@ def swapaxes(self, axis1, axis2):
     (4, 3, 2)
     """
     pos, _ = self._get_axes_info([axis1, axis2])
-    axis1, axis2 = pos  # axis positions
+    axis1, axis2 = [i % self.ndim if self.ndim else i for i in pos]  # axis positions (negative ones count from the end)
     newshape = []
     for i in range(self.ndim):
         if i == axis1:
